@@ -258,6 +258,38 @@ class SymInt:
             raise Unsupported("division of a symbolic int by a symbolic value")
         if c <= 0:
             raise Unsupported("division of a symbolic int by a non-positive constant")
+        qlo, qhi = self.lo // c, self.hi // c
+        if qlo == qhi:
+            rlo, rhi = self.lo - qlo * c, self.hi - qlo * c
+        else:
+            rlo, rhi = 0, c - 1
+        if c & (c - 1) == 0 and self.lo >= 0:
+            # power of two: pure bit extraction
+            k = c.bit_length() - 1
+            w = self.w
+            q = z3.Extract(w - 1, k, self.t) if w > k else z3.BitVecVal(0, 1)
+            qi = SymInt.mk(z3.ZeroExt(1, q), qlo, qhi)
+            ri = SymInt.mk(z3.ZeroExt(1, z3.Extract(k - 1, 0, self.t)) if k > 0 else z3.BitVecVal(0, 1), rlo, rhi) if k > 0 else 0
+            return qi, ri
+        if E.active():
+            # division-free: fresh quotient and remainder, defined by a = c*q + r, 0 <= r < c
+            p = E.cur()
+            wq = _width_for(qlo, qhi)
+            wr = _width_for(0, c - 1)
+            qv = p.fresh_bv("divq", wq)
+            rv = p.fresh_bv("divr", wr)
+            qi = SymInt(qv, qlo, qhi) if qlo != qhi else qlo
+            ri = SymInt(rv, rlo, rhi) if rlo != rhi else rlo
+            cs = []
+            if qlo != qhi:
+                cs += [qv >= qlo, qv <= qhi]
+            if rlo != rhi:
+                cs += [rv >= rlo, rv <= rhi]
+            tot = qi * c + ri
+            e = i_eq(tot, self)
+            cs.append(bterm(e))
+            p.constrain(z3.And(*cs))
+            return qi, ri
         w = max(self.w, _width_for(0, c)) + 1
         a = self.term(w)
         cv = z3.BitVecVal(c, w)
@@ -270,11 +302,7 @@ class SymInt:
             qn = -z3.UDiv(na + cv - 1, cv)
             q = z3.If(a >= 0, z3.UDiv(a, cv), qn)
             r = a - q * cv
-        qi = SymInt.mk(q, self.lo // c, self.hi // c)
-        if self.hi // c == self.lo // c:
-            rlo, rhi = self.lo % c, self.hi % c
-        else:
-            rlo, rhi = 0, c - 1
+        qi = SymInt.mk(q, qlo, qhi)
         ri = SymInt.mk(r, rlo, rhi)
         return qi, ri
 
